@@ -93,6 +93,11 @@ def configs(tier):
         for init in (ABSENT, 'iv'):
             out.append(dict(kind='inputexp', dur=dur, init=init))
     out += [dict(c, sib=1) for c in out if c['kind'] != 'pingpong']
+    # an attempt to leave the timed state fails half-way: the on_exit event is refused by its
+    # destination (EdzedUnknownEvent: reported to the caller, not fatal), the state is not left
+    for d in (3, 0.5):
+        for steps in _exitfail_sequences(3 if tier == 'quick' else 4):
+            out.append(dict(kind='exitfail', d=d, steps=steps))
     out += [dict(c, asyncbase=1) for c in out if c['kind'] == 'gen' and not c.get('sib')
             and c['rule'] in ('to_a', 'cond_false')]
     return out
@@ -595,12 +600,111 @@ def run_history(cfg, hist, chooser):
     return (None if (info.get('dead') or info.get('noop')) else info.get('canon')), info
 
 
+def _exitfail_sequences(maxlen):
+    import itertools
+    al = ('fail-back', 'fail-goto', 'ok-back', 'tick')
+    out = []
+    for ln in range(1, maxlen + 1):
+        for seq in itertools.product(al, repeat=ln):
+            if any(x.startswith('fail') for x in seq) and 'ok-back' not in seq[:-1]:
+                out.append(seq)
+    return out
+
+
+def run_exitfail(cfg, acc):
+    d = cfg['d']
+    viol = []
+    trace = []
+    with Sim() as sim:
+        loop = sim.loop
+        armed = []
+        entered = []
+
+        class TF(edzed.FSM):
+            STATES = ['a', 'b']
+            EVENTS = [['go', ['a'], 'b'], ['back', ['b'], 'a'], ['tmo', ['b'], 'a']]
+            TIMERS = {'b': (d, 'tmo')}
+
+            def enter_a(self):
+                entered.append((loop.now_us / TICK, self.event_data_etype if hasattr(self, 'event_data_etype') else None))
+        refuser = edzed.Input('refuser', initdef=0)
+        gate = lambda data: bool(armed)     # noqa: E731
+        fsm = TF('fsm', on_exit_b=edzed.Event(refuser, 'no-such-event', efilter=gate))
+
+        async def driver():
+            task = asyncio.create_task(sim.circuit.run_forever())
+            await sim.circuit.wait_init()
+            del entered[:]
+            t_enter = loop.now_us / TICK
+            edzed.ExtEvent(fsm, 'go').send()
+            left_at = None
+            for step in cfg['steps']:
+                # (0.7 s / 0.2 s apart: never in the instant of the expiry itself)
+                await loop.sleep_until_us(loop.now_us + (TICK // 5 if d < 1 else TICK * 7 // 10))
+                now = loop.now_us / TICK
+                if left_at is None and now >= t_enter + d:
+                    left_at = t_enter + d       # expired meanwhile
+                if left_at is not None:
+                    break
+                if step == 'tick':
+                    trace.append((now, step, fsm.state))
+                    continue
+                if step.startswith('fail'):
+                    armed.append(1)
+                try:
+                    if step == 'fail-goto':
+                        ret = fsm.event(edzed.Goto('a'))
+                    else:
+                        ret = edzed.ExtEvent(fsm, 'back').send()
+                except edzed.EdzedUnknownEvent as err:
+                    ret = 'EdzedUnknownEvent'
+                except Exception as err:    # pylint: disable=broad-except
+                    ret = repr(err)
+                del armed[:]
+                trace.append((now, step, ret, fsm.state, fsm.get_state()[1] is not None))
+                if not sim.circuit.is_ready():
+                    viol.append(('simulation-stopped', f"{cfg}: {sim.circuit.error!r}; trace {trace}"))
+                    return
+                if left_at is None:
+                    if step == 'ok-back':
+                        left_at = now
+                    elif fsm.state == 'b' and fsm.get_state()[1] is None:
+                        viol.append(('timed-state-without-timer',
+                                     f"timed state b ({d} s), steps {cfg['steps']}: after the failed attempt to leave "
+                                     f"it at t={now} (on_exit event refused) the FSM is still in b, but has no timer; "
+                                     f"trace {trace}"))
+                    elif fsm.state != 'b':
+                        trace.append('state left by a failed event: not judged here (C03)')
+                        left_at = -1
+            await loop.sleep_until_us(int((t_enter + d + 6) * TICK))
+            if left_at is None:
+                left_at = t_enter + d
+            trace.append(('end', fsm.state, entered))
+            if left_at >= 0:
+                times = [t for t, _e in entered]
+                if fsm.state != 'a' or times != [left_at]:
+                    viol.append(('timed-event-lost-or-late',
+                                 f"timed state b ({d} s) entered at {t_enter}, steps {cfg['steps']}: expected to be in "
+                                 f"state a since t={left_at}; state {fsm.state!r}, entries into a at {times}; trace {trace}"))
+            await stop(sim.circuit)
+            del task
+        sim.run(driver())
+    acc.execs += 1
+    acc.outcome(('exitfail', d, cfg['steps'], repr(trace)))
+    acc.state(('exitfail', d, tuple(x[3] if len(x) > 3 else x[-1] for x in trace if isinstance(x, tuple))))
+    return viol
+
+
 def cfg_key(cfg):
     return repr(sorted((k, repr(v)) for k, v in cfg.items()))
 
 
 def run_config(cfg):
     acc = Acc()
+    if cfg['kind'] == 'exitfail':
+        for sig, msg in run_exitfail(cfg, acc):
+            acc.violation(f"C04:{sig}:exitfail", msg, cfg=cfg)
+        return acc
     key = cfg_key(cfg)
     al = alphabet(cfg)
     max_depth = cfg.get('depth', 6)
